@@ -227,10 +227,11 @@ impl Prop for C01 {
             let v6 = r.chance(1, 4);
             let foreign = Framing::NullFamily { fam: *r.pick(&[2u8, 10, 24, 28, 30]), big_endian: r.chance(1, 2) };
             let tagged = Framing::Vlan { tpid: *r.pick(&[0x8100u16, 0x88a8]), tci: r.u16() };
-            let framing = *r.pick(&[Framing::Ethernet, Framing::Ethernet, Framing::Ethernet, Framing::RawIp, Framing::RawIp, Framing::Null1e, Framing::NullAf, foreign, tagged]);
+            let cooked = Framing::Sll { pkttype: *r.pick(&[0u8, 4]) };
+            let framing = *r.pick(&[Framing::Ethernet, Framing::Ethernet, Framing::Ethernet, Framing::RawIp, Framing::RawIp, Framing::Null1e, Framing::NullAf, foreign, tagged, cooked]);
             let mut names = vec![];
             let trace = faulty_trace(r, kind, v6, framing, &mut names);
-            let pc = probe_conns(r, v6, if matches!(framing, Framing::NullAf | Framing::NullFamily { .. } | Framing::Vlan { .. }) { Framing::Ethernet } else { framing });
+            let pc = probe_conns(r, v6, if matches!(framing, Framing::NullAf | Framing::NullFamily { .. } | Framing::Vlan { .. } | Framing::Sll { .. }) { Framing::Ethernet } else { framing });
             let lens: Vec<usize> = pc.iter().map(|c| c.steps.len()).collect();
             let order = conn::merge_order(r, &lens, MergeMode::RoundRobin);
             let base = trace.last().map(|p| p.t).unwrap_or(0) + 1_000_000;
